@@ -51,6 +51,7 @@ EXPECT = {  # subject substring -> checks that should detect the reversal
     "nothing left to write is ignored": ["C08"],
     "lock the peer once": ["C08"],
     "given up when a request on it times out": ["C15"],
+    "after the attempt has failed no longer marks": ["C15"],
 }
 
 
